@@ -21,12 +21,14 @@ DepthOK == Len(calls) <= DumpDepth
 (* initial values alone.  One script per property so that each is judged on its own calls.              *)
 AllV(n, v) == [i \in 1..n |-> v]
 ScriptOf(id) ==
-    CASE id = "C06" -> << <<"cost", "P", 1>>, <<"residual", "N", 0>>, <<"costIV", "IV", 2>>, <<"cost", "N", 0>>,
-                          <<"residual", "P", 1>>, <<"residualIV", "N", 0>>, <<"costIV", "S", 1>>, <<"cost", "N", 0>> >>
-      [] id = "C07" -> << <<"sensitivity", "P", 1>>, <<"jac", "N", 0>>, <<"sensitivityIV", "IV", 2>>, <<"jacIV", "N", 0>>,
+    CASE id = "C06" -> << <<"cost", "P", 1>>, <<"disturb", "D", 0>>, <<"residual", "N", 0>>, <<"costIV", "IV", 2>>,
+                          <<"disturb", "D", 0>>, <<"cost", "N", 0>>, <<"residual", "P", 1>>, <<"residualIV", "N", 0>>,
+                          <<"costIV", "S", 1>>, <<"cost", "N", 0>> >>
+      [] id = "C07" -> << <<"disturb", "D", 0>>, <<"sensitivity", "N", 0>>, <<"sensitivity", "P", 1>>, <<"disturb", "D", 0>>,
+                          <<"jac", "N", 0>>, <<"sensitivityIV", "IV", 2>>, <<"disturb", "D", 0>>, <<"jacIV", "N", 0>>,
                           <<"gradient", "N", 0>>, <<"jac", "P", 1>>, <<"sensitivityIV", "S", 1>>, <<"sensitivity", "N", 0>> >>
-      [] id = "C20" -> << <<"jtj", "P", 1>>, <<"hessian", "N", 0>>, <<"costIV", "IV", 2>>, <<"jtj", "N", 0>>,
-                          <<"hessian", "P", 1>> >>
+      [] id = "C20" -> << <<"jtj", "P", 1>>, <<"disturb", "D", 0>>, <<"hessian", "N", 0>>, <<"costIV", "IV", 2>>,
+                          <<"disturb", "D", 0>>, <<"jtj", "N", 0>>, <<"hessian", "P", 1>> >>
 CONSTANT ScriptId
 Script == ScriptOf(ScriptId)
 SNext ==
@@ -35,6 +37,7 @@ SNext ==
     /\ LET e == Script[q] IN
        CASE e[2] = "P"  -> CallP(e[1], AllV(Len(FreeP), e[3]))
          [] e[2] = "N"  -> CallNone(e[1])
+         [] e[2] = "D"  -> Disturb
          [] e[2] = "IV" -> CallIV(e[1], AllV(Len(FreeP) + Len(FreeS), e[3]))
          [] e[2] = "S"  -> IF ~tp.some /\ ts.some THEN CallIVStatesOnly(e[1], AllV(Len(FreeS), e[3]))
                            ELSE CallNone(e[1])
